@@ -9,7 +9,7 @@ for f in ['/var/tmp/seedsuite.log','/var/tmp/suiteB.log','/var/tmp/suiteC.log','
 head=subprocess.check_output(['git','-C','/repo','rev-parse','--short','HEAD']).decode().strip()
 n=len(res); c=sum(1 for v in res.values() if ' CAUGHT' in v)
 missed=[k for k,v in res.items() if ' CAUGHT' not in v]
-out=[f"# tools/seedsuite.sh on /repo {head}: quick tier against every kept breaking change (5 rounds of 40 + round 6 of 40 = {n}): {c} caught; not caught: {', '.join(sorted(missed))} (see DESIGN.md 7.7 and 7.10)"]
+out=[f"# tools/seedsuite.sh on /repo {head}: quick tier against every kept breaking change (5 rounds of 40 + round 6 of 46 = {n}): {c} caught; not caught: {', '.join(sorted(missed))} (see DESIGN.md 7.7 and 7.10)"]
 out+= [res[k] for k in sorted(res)]
 open('/verif/seeded/SUITE_RESULT.txt','w').write('\n'.join(out)+'\n')
 print(out[0])
